@@ -5,23 +5,37 @@ import CopVerif.Model.Plot
 -/
 namespace CopVerif.Model.Plot
 
+theorem pointsOf_append {β : Type} (a b : List (Label × List β)) (l : Label) :
+    pointsOf (a ++ b) l = pointsOf a l ++ pointsOf b l := by
+  simp [pointsOf, List.filter_append, List.flatMap_append]
+
+theorem pointsOf_traceOf_same {β : Type} (l : Label) (xs : List β) :
+    pointsOf (traceOf l xs) l = xs := by
+  unfold traceOf pointsOf
+  cases xs <;> simp
+
+theorem pointsOf_traceOf_other {β : Type} (l l' : Label) (h : l ≠ l') (xs : List β) :
+    pointsOf (traceOf l xs) l' = [] := by
+  unfold traceOf pointsOf
+  cases xs <;> simp [h]
+
 /-- the points under label `l` after the split are exactly the points that carried label `l`,
     in order, each once -/
 theorem pointsOf_splitByLabel {β : Type} (pts : List (β × Label)) (l : Label) :
-    pointsOf (splitByLabel pts) l = (pts.filter fun p => p.2 = l).map (·.1) := by
+    pointsOf (splitByLabel pts) l = pick pts l := by
   cases pts with
-  | nil => simp [splitByLabel, pointsOf]
+  | nil => simp [splitByLabel, pointsOf, pick]
   | cons p ps =>
-    simp only [splitByLabel, pointsOf]
+    simp only [splitByLabel]
     by_cases hp : p.2 = Label.real
-    · cases l <;>
-        by_cases h1 : (List.map (·.1) (List.filter (fun q : β × Label => q.2 = Label.real) (p :: ps))).isEmpty <;>
-        by_cases h2 : (List.map (·.1) (List.filter (fun q : β × Label => q.2 = Label.synthetic) (p :: ps))).isEmpty <;>
-        simp_all [List.filter, List.flatMap]
-    · cases l <;>
-        by_cases h1 : (List.map (·.1) (List.filter (fun q : β × Label => q.2 = Label.real) (p :: ps))).isEmpty <;>
-        by_cases h2 : (List.map (·.1) (List.filter (fun q : β × Label => q.2 = Label.synthetic) (p :: ps))).isEmpty <;>
-        simp_all [List.filter, List.flatMap]
+    · simp only [hp, if_true, pointsOf_append]
+      cases l
+      · rw [pointsOf_traceOf_same, pointsOf_traceOf_other _ _ (by decide)]; simp
+      · rw [pointsOf_traceOf_same, pointsOf_traceOf_other _ _ (by decide)]; simp
+    · simp only [hp, if_false, pointsOf_append]
+      cases l
+      · rw [pointsOf_traceOf_same, pointsOf_traceOf_other _ _ (by decide)]; simp
+      · rw [pointsOf_traceOf_same, pointsOf_traceOf_other _ _ (by decide)]; simp
 
 /-- every label heads at most one trace -/
 theorem splitByLabel_labels_nodup {β : Type} (pts : List (β × Label)) :
@@ -29,35 +43,37 @@ theorem splitByLabel_labels_nodup {β : Type} (pts : List (β × Label)) :
   cases pts with
   | nil => simp [splitByLabel]
   | cons p ps =>
-    simp only [splitByLabel]
+    simp only [splitByLabel, traceOf]
     by_cases hp : p.2 = Label.real <;>
-      by_cases h1 : (List.map (·.1) (List.filter (fun q : β × Label => q.2 = Label.real) (p :: ps))).isEmpty <;>
-      by_cases h2 : (List.map (·.1) (List.filter (fun q : β × Label => q.2 = Label.synthetic) (p :: ps))).isEmpty <;>
-      simp_all [List.filter]
+      by_cases h1 : (pick (p :: ps) Label.real).isEmpty <;>
+      by_cases h2 : (pick (p :: ps) Label.synthetic).isEmpty <;>
+      simp [hp, h1, h2]
 
 section
-variable {α : Type} [Inhabited α]
+variable {α : Type}
 
 theorem filter_labelled_same {β : Type} (f : Frame α) (l : Label) (g : List α → β) :
-    (((labelled f l).map fun r => (g r.1, r.2)).filter fun p => p.2 = l).map (·.1) = f.rows.map g := by
-  simp only [labelled, List.map_map]
+    pick ((labelled f l).map fun r => (g r.1, r.2)) l = f.rows.map g := by
+  simp only [pick, labelled, List.map_map]
   induction f.rows with
   | nil => rfl
-  | cons r rs ih => simp [List.filter, ih]
+  | cons r rs ih => simp [ih]
 
 theorem filter_labelled_other {β : Type} (f : Frame α) (l l' : Label) (h : l ≠ l') (g : List α → β) :
-    (((labelled f l).map fun r => (g r.1, r.2)).filter fun p => p.2 = l').map (·.1) = [] := by
-  simp only [labelled, List.map_map]
+    pick ((labelled f l).map fun r => (g r.1, r.2)) l' = [] := by
+  simp only [pick, labelled, List.map_map]
   induction f.rows with
   | nil => rfl
-  | cons r rs ih => simp [List.filter, h, ih]
+  | cons r rs ih => simp [h, ih]
 
 /-- split of a labelled concatenation -/
 theorem points_concat {β : Type} (real synth : Frame α) (g : List α → β) :
     let ts := splitByLabel ((labelled real .real ++ labelled synth .synthetic).map fun r => (g r.1, r.2))
     pointsOf ts .real = real.rows.map g ∧ pointsOf ts .synthetic = synth.rows.map g := by
   intro ts
-  simp only [ts, pointsOf_splitByLabel, List.map_append, List.filter_append]
+  have happ : ∀ (a b : List (β × Label)) (l : Label), pick (a ++ b) l = pick a l ++ pick b l := by
+    intro a b l; simp [pick, List.filter_append]
+  simp only [ts, pointsOf_splitByLabel, List.map_append, happ]
   constructor
   · rw [filter_labelled_same real .real g, filter_labelled_other synth .synthetic .real (by decide) g]
     simp
